@@ -611,6 +611,8 @@ func (e *Engine) snapshotObserved(m *Model) map[string]string {
 				sb.WriteString("?")
 			} else if t.W == 8 {
 				fmt.Fprintf(&sb, "%02x", x)
+			} else if t.W == 1 {
+				fmt.Fprintf(&sb, "%d", x)
 			} else {
 				fmt.Fprintf(&sb, "%d", signExt(x, t.W))
 			}
